@@ -57,7 +57,8 @@ func c09EngineScenario(t *testing.T, tr *kit.Trace, rules []kit.C09Rule, qs []ki
 	tr.Reset(kit.E{"src": "engine"})
 	eng, err := NewACLEngineFromString(text, entries, nil)
 	if err != nil {
-		t.Fatalf("harness rendered a rule file the engine rejects: %v\n%s", err, text)
+		tr.Ev(kit.E{"ev": "CompileFail", "msg": err.Error(), "text": text})
+		return
 	}
 	tr.Ev(kit.C09RulesEvent(rules, dflt, aclCacheSize, text))
 	for i, q := range qs {
